@@ -52,10 +52,49 @@ def run(ctx, model):
     else:
         ctx.notes.append("driver-level sequence monitor not built yet: only the counter is checked against the implementation")
     run_logix_histories(ctx, model)
+    run_redundant_open(ctx, model)
     outs = model.batch(lines)
     for (stream, k, want), out in zip(pend, outs):
         if out != want:
             ctx.mismatch(stream, {"k": k}, want, out)
+
+
+def run_redundant_open(ctx, model):
+    """open() on a driver that is already open keeps the connection: the counts must keep running on it"""
+    import re
+    import struct
+    import fakesock
+    import pycomm3.cip_driver as cd
+    from props import transcripts as tr
+    rng = ctx.rng
+    for before in (1, 2, 3, 7):
+        for again in (1, 2):
+            scn, _, _ = tr.gen_base(rng, policy=(True, True, True), generic=(0, (), b"\x01"))
+            assert model.ask("target.new " + scn) == "ok"
+            d = cd.CIPDriver("10.0.0.1/bp/0")
+            sock = fakesock.TargetSocket(model)
+            d._sock = sock
+            cd.CIPDriver.open(d)
+            for _ in range(before):
+                d.generic_message(service=1, class_code=0x70, instance=1, connected=True, name="g")
+            for _ in range(again):
+                d.open()                      # already open: returns True, nothing else
+            for _ in range(2):
+                d.generic_message(service=1, class_code=0x70, instance=1, connected=True, name="g")
+            log = model.ask("target.log")
+            frames = [f for f in sock.frames if f[:2] == b"\x70\x00" and len(f) >= 46]
+            seqs = [struct.unpack_from("<H", f, 44)[0] for f in frames]
+            ctx.case("redundant-open", ("ro", before, again))
+            case = {"history": "open, %d connected messages, %d more open() calls, 2 connected messages" % (before, again), "counts": seqs}
+            if any(seqs[j] == seqs[j - 1] for j in range(1, len(seqs))):
+                ctx.violation("sequence-count-repeated", case, "counts on the wire: %s" % seqs)
+            texts = ["".join(chr(int(c)) for c in m.group(1).split()) for m in re.finditer(r"\(violation \(s([0-9 ]*)\)\)", log)]
+            if any("repeated on consecutive" in t for t in texts):
+                ctx.violation("target-saw-duplicate-sequence-count", case, "the reference target's duplicate detection fired")
+            try:
+                d.close()
+            except Exception:  # noqa
+                pass
 
 
 def run_logix_histories(ctx, model):
@@ -69,6 +108,51 @@ def run_logix_histories(ctx, model):
     from props import logix as lx
     from props import c02
     rng = ctx.rng
+    # a fragmented read whose k-th continuation is stalled (status 6, no data): every frame still carries a fresh count
+    from props.c04 import sized_project
+    import struct as _st
+    for k in range(ctx.budget(4, 12)):
+        size = rng.choice([1200, 1500, 2600])
+        p = sized_project(rng, [(size, "big")], reads=rng.choice([[], [100], [333]]))
+        sess = lx.Session(model, p, conn_large=False)
+        if sess.open_error is not None:
+            sess.close()
+            continue
+        if rng.random() < 0.5:
+            for _ in range(65535 - rng.randint(2, 40)):
+                next(sess.d._sequence)
+            sess.d.generic_message(service=1, class_code=0x70, instance=1, connected=True, name="sync")
+        st = {"seen": 0, "done": False}
+
+        def flt(reply, st=st, k=k):
+            if len(reply) > 50 and reply[:2] == b"\x70\x00" and reply[46] == 0xD2 and reply[48] == 6 and not st["done"]:
+                st["seen"] += 1
+                if st["seen"] > k:
+                    st["done"] = True
+                    tl = 4 if reply[50:52] == b"\xa0\x02" else 2
+                    out = bytearray(reply[:50 + tl])
+                    _st.pack_into("<H", out, 2, len(out) - 24)
+                    _st.pack_into("<H", out, 42, len(out) - 44)
+                    return bytes(out)
+            return reply
+        sess.sock.reply_filter = flt
+        n0 = max(0, len(sess.sock.frames) - 1)
+        try:
+            got = core.with_budget(60, sess.d.read, "big{%d}" % size)
+        except BaseException as e:  # noqa
+            if isinstance(e, (KeyboardInterrupt, SystemExit)):
+                raise
+            got = None
+        frames = [f for f in sess.sock.frames[n0:] if f[:2] == b"\x70\x00" and len(f) >= 46]
+        seqs = [_st.unpack_from("<H", f, 44)[0] for f in frames]
+        ctx.case("stalled-fragment", ("stall", k, size))
+        case = {"tag_bytes": size, "stalled_continuation": k, "fragment_schedule": p["reads"], "stall_injected": st["done"]}
+        for j in range(1, len(seqs)):
+            if seqs[j] == seqs[j - 1]:
+                ctx.violation("sequence-count-repeated", dict(case, frame_index=j),
+                              "count %d on two consecutive connected messages (services %#x, %#x)" % (seqs[j], frames[j - 1][46], frames[j][46]))
+                break
+        sess.close()
     for i in range(ctx.budget(25, 250)):
         p = lg.gen_project(rng)
         if rng.random() < 0.15:
@@ -85,6 +169,24 @@ def run_logix_histories(ctx, model):
             for _ in range(65535 * rng.choice([1, 2]) - rng.randint(2, 60)):
                 next(sess.d._sequence)
             sess.d.generic_message(service=1, class_code=0x70, instance=1, connected=True, name="sync")
+        if rng.random() < 0.5:
+            # a controller may answer a read fragment "more to come" without any data (a stalled continuation): the
+            # driver then asks again for the same offset — with a fresh count.  One such reply per session.
+            stall = {"left": 1, "seen": 0, "at": rng.choice([0, 1, 2, 5])}
+
+            def flt(reply, stall=stall):
+                if len(reply) > 50 and reply[:2] == b"\x70\x00" and reply[46] == 0xD2 and reply[48] == 6 and stall["left"]:
+                    stall["seen"] += 1
+                    if stall["seen"] > stall["at"]:
+                        stall["left"] -= 1
+                        tl = 4 if reply[50:52] == b"\xa0\x02" else 2
+                        out = bytearray(reply[:50 + tl])
+                        import struct as _st
+                        _st.pack_into("<H", out, 2, len(out) - 24)
+                        _st.pack_into("<H", out, 42, len(out) - 44)
+                        return bytes(out)
+                return reply
+            sess.sock.reply_filter = flt
         sess.log()
         n0 = max(0, len(sess.sock.frames) - 1)       # the last frame before the calls is part of the adjacency check
         calls = []
